@@ -406,6 +406,12 @@ def tasksys_facts(docs):
                 len(kids(s)) == 2 and refname(kids(s)[1]) == pn:
             steps.append("TsInit")
             continue
+        # draining the previous scheduler before it is replaced: [if (g_ts)] g_ts->WaitforAll();
+        drain = [x for x in walk(st) if x.get("kind") == "CXXMemberCallExpr" and callee_name(x) in ("WaitforAll",)]
+        others = [x for x in walk(st) if is_call(x) and callee_name(x) not in ("WaitforAll", "get", "operator->", "operator bool", "operator!=", "operator==")]
+        if len(drain) == 1 and not others and mentions(st, "g_ts") and not mentions(st, pn):
+            steps.append("TsDrainOld")
+            continue
         steps.append("TsOther")       # anything else: fail closed
     q = find_fn(docs, "FunctionDecl", "numThreadsTaskSystemInternal")
     qok = False
